@@ -1,2 +1,417 @@
-(* Statement model — lemmas (in progress; see Stmt/NoCrash.v etc. when present). *)
+(* Termination and no-crash of the statement-level parser model (coq/Stmt/Model.v).
+
+   Measure.  M m s = 2 * W s + rank m s, where W s is the weight of the remaining tokens (40 per token, 81 for a
+   signed number: splitting it into `-` `k` loses 1) and rank orders the modes that call each other WITHOUT consuming
+   a token (parseProgram > parseStatement > the 18 expression levels > the sub-parsers of parsePrimary; block, if
+   condition, argument list and the key/value loops above parseStatement).  Every recursive call of `step` is on a
+   smaller measure; the loops that the Go code protects only by the no-progress guard (parseProgram, parseBlock, the
+   key/value loops, a case body) continue only after the position has changed, which strictly decreases W.
+
+   good r s  :=  r is neither Fuel nor Crash, and if r = Ok v s' then s' is "not before" s:
+                 W s' <= W s, and if nothing was consumed the position is unchanged. *)
+From Coq Require Import List NArith Bool Arith Lia.
+Import ListNotations.
+From V.C04 Require Import Model.
 From V.Stmt Require Import Model.
+
+Definition tw (t : stok) : nat := match t with SAtom (ANum true _) => 81 | _ => 40 end.
+Fixpoint wl (l : list stok) : nat := match l with [] => 0 | t :: r => tw t + wl r end.
+Definition W (s : st) : nat := wl (rest s).
+
+Arguments skip_semis_all : simpl never.
+Arguments next : simpl never.
+Arguments split_signed : simpl never.
+
+Lemma tw_ge t : 40 <= tw t.
+Proof. destruct t as [a| | | | | | | | | | | | | | | | | | | | | |]; try (cbn; lia). destruct a as [| neg k | | | |]; try (cbn; lia). destruct neg; cbn; lia. Qed.
+
+Definition rank (m : mode) (s : st) : nat :=
+  match m with
+  | Program last _ => 26 + (if pos s =? last then 0 else 1)
+  | CaseBody _ _ => 25
+  | MainStmt | Block | BlockLoop _ | IfCond | KvLoop _ _ | KvLoopComma _ | JsonLoopB _ | Args _ => 24
+  | Stmt => 23
+  | Lvl n => 5 + (17 - n)
+  | PLbrace | PFunc => 2
+  | _ => 0
+  end.
+Definition M (m : mode) (s : st) : nat := 2 * W s + rank m s.
+
+Lemma rank_le m s : rank m s <= 27.
+Proof. destruct m; cbn [rank]; try lia. destruct (pos s =? last); lia. Qed.
+
+Definition le_st (s' s : st) : Prop := W s' <= W s /\ (W s' = W s -> 0 < W s -> pos s' = pos s).
+Definition good (r : res) (s : st) : Prop :=
+  match r with Fuel | Crash => False | Ok _ s' => le_st s' s | _ => True end.
+
+(* facts about the state transformers, packaged so that the tactics can tell which ones are already known *)
+Definition NF (x : st) : Prop := W (next x) <= W x /\ (0 < W x -> W (next x) + 40 <= W x).
+Lemma next_NF x : NF x.
+Proof. unfold NF, W, next. destruct (rest x) as [|t r]; cbn [rest wl]; [lia | pose proof (tw_ge t); lia]. Qed.
+
+Lemma cur_semi_pos x : is_semi (cur x) = true -> 0 < W x.
+Proof. unfold cur, W. destruct (rest x) as [|t r]; cbn; [discriminate|]. intros _. pose proof (tw_ge t). lia. Qed.
+
+Lemma skip_semis_spec f x : skip_semis f x = x \/ W (skip_semis f x) + 40 <= W x.
+Proof.
+  revert x. induction f as [|f IH]; intros x; cbn [skip_semis]; [left; reflexivity|].
+  destruct (is_semi (cur x)) eqn:E; [|left; reflexivity].
+  right. pose proof (cur_semi_pos x E) as P. destruct (next_NF x) as [_ N]. specialize (N P).
+  destruct (IH (next x)) as [Q|Q]; [rewrite Q; lia | lia].
+Qed.
+Definition SF (x : st) : Prop :=
+  W (skip_semis_all x) <= W x /\ (W (skip_semis_all x) = W x -> pos (skip_semis_all x) = pos x).
+Lemma skip_SF x : SF x.
+Proof. unfold SF, skip_semis_all. destruct (skip_semis_spec (S (length (rest x))) x) as [Q|Q]; [rewrite Q; lia | lia]. Qed.
+
+Lemma W_pos_of_rest x t r : rest x = t :: r -> 0 < W x.
+Proof. intros R. unfold W. rewrite R. cbn. pose proof (tw_ge t). lia. Qed.
+
+Lemma split_W k x t r : rest x = t :: r -> cur x = SAtom (ANum true k) -> W (split_signed k x) + 1 = W x.
+Proof. intros R C. unfold cur in C. rewrite R in C. subst t. unfold split_signed, W. rewrite R. cbn. lia. Qed.
+
+Lemma eof_W x : is_eof x = false -> 0 < W x.
+Proof. unfold is_eof. destruct (rest x) as [|t r] eqn:R; [discriminate|]. intros _. eapply W_pos_of_rest; eassumption. Qed.
+
+Lemma kind_spec n :
+  match kind n with
+  | KAssign => n = 0 | KTern => n = 1 | KLoop => n < 15 | KAnd => n = 5 | KCmp => n = 10 | KRange => n = 13
+  | KUnary => n = 15 | KPow => n = 16 | KPrim => 17 <= n
+  end.
+Proof. do 18 (destruct n as [|n]; [cbn; lia|]). cbn. lia. Qed.
+
+(* after the first consumed token every call is on a smaller measure, whatever its mode *)
+Definition small (m0 : mode) (s0 x : st) : Prop := 2 * W x + 28 <= M m0 s0.
+
+(* 0 < W x from any hypothesis that says something positive about cur x *)
+Ltac wpos x :=
+  lazymatch goal with
+  | _ : 0 < W x |- _ => fail
+  | _ =>
+    assert (0 < W x) by
+      (let R := fresh "R" in
+       destruct (rest x) as [|? ?] eqn:R;
+       [ exfalso; unfold cur, peek, is_eof in *; rewrite R in *; cbn in *; congruence
+       | eapply W_pos_of_rest; eassumption ])
+  end.
+
+Ltac note_facts :=
+  repeat match goal with
+  | |- context [next ?x] => lazymatch goal with _ : NF x |- _ => fail | _ => pose proof (next_NF x) end
+  | _ : context [next ?x] |- _ => lazymatch goal with _ : NF x |- _ => fail | _ => pose proof (next_NF x) end
+  | |- context [skip_semis_all ?x] => lazymatch goal with _ : SF x |- _ => fail | _ => pose proof (skip_SF x) end
+  | _ : context [skip_semis_all ?x] |- _ => lazymatch goal with _ : SF x |- _ => fail | _ => pose proof (skip_SF x) end
+  end;
+  repeat match goal with
+  | _ : NF ?x |- _ => wpos x
+  | _ : cur ?x = _ |- _ => wpos x
+  end;
+  repeat match goal with
+  | H : is_eof ?x = false |- _ => lazymatch goal with _ : 0 < W x |- _ => fail | _ => pose proof (eof_W x H) end
+  end.
+
+Ltac eqb_hyps :=
+  repeat match goal with
+  | H : (_ =? _) = false |- _ => apply Nat.eqb_neq in H
+  | H : (_ =? _) = true |- _ => apply Nat.eqb_eq in H
+  end;
+  repeat match goal with
+  | |- context [?a =? ?b] => destruct (Nat.eqb_spec a b)
+  end.
+
+Ltac kind_facts :=
+  repeat match goal with
+  | H : kind ?n = _ |- _ =>
+      lazymatch goal with
+      | _ : n < 15 |- _ => fail | _ : n = _ |- _ => fail | _ : 17 <= n |- _ => fail
+      | _ => let P := fresh "P" in pose proof (kind_spec n) as P; rewrite H in P
+      end
+  end.
+
+Ltac arith :=
+  repeat match goal with H : _ || _ = false |- _ => apply orb_false_iff in H; destruct H end;
+  unfold small, good, le_st, M in *; cbn [rank] in *; kind_facts; note_facts; eqb_hyps; unfold NF, SF in *;
+  repeat match goal with H : _ /\ _ |- _ => destruct H end; try lia.
+
+Section StepProof.
+Variable rec : mode -> st -> res.
+Variable m0 : mode.
+Variable s0 : st.
+Hypothesis IH : forall m x, M m x < M m0 s0 -> good (rec m x) x.
+
+Lemma good_weaken r x s : good r x -> le_st x s -> good r s.
+Proof. destruct r; cbn [good]; auto. unfold le_st. intros [A B] [C D]. split; [lia|]. intros E F. assert (W x = W s) by lia. assert (0 < W x) by lia. rewrite B by lia. auto. Qed.
+
+Lemma good_bind r k b s :
+  le_st b s -> good r b -> (forall v x, le_st x b -> good (k v x) s) -> good (bind r k) s.
+Proof. intros L G Hk. destruct r; cbn [bind good] in *; auto. Qed.
+
+Lemma good_nil_err r k b s :
+  le_st b s -> good r b -> (forall v x, le_st x b -> good (k v x) s) -> good (nil_err r k) s.
+Proof.
+  intros L G Hk. unfold nil_err. eapply good_bind; [exact L | exact G |].
+  intros v x Lx. destruct (is_nil v); [exact I | apply Hk; exact Lx].
+Qed.
+
+Lemma good_postfix c r s : good r s -> good (postfix c r) s.
+Proof.
+  intros G. unfold postfix. destruct r; cbn [bind good] in *; auto.
+  destruct (cur s1); try exact G; destruct (statement_kw c); try exact G; cbn [good]; arith.
+Qed.
+
+Lemma good_kv_ret ps x s : le_st x s -> good (kv_ret ps x) s.
+Proof. intros L. unfold kv_ret. destruct (kv_ok ps); cbn [good err]; auto. Qed.
+
+Lemma rec_small m x : small m0 s0 x -> good (rec m x) x.
+Proof. intros S. apply IH. unfold small, M in *. pose proof (rank_le m x). lia. Qed.
+
+Ltac base r :=
+  lazymatch r with
+  | rec _ ?x => x
+  | json_key _ ?x => x
+  | bind ?r' _ => base r'
+  | nil_err ?r' _ => base r'
+  | Ok _ ?x => x
+  end.
+
+Ltac mode_hyp := try match goal with H : m0 = _ |- _ => rewrite H in * end.
+Ltac ar := mode_hyp; arith.
+
+(* lemmas about the sub-parsers that are entered after a token has been consumed: `small x -> good (f rec .. x) x` *)
+Ltac sublemma := fail.
+
+(* goals: good E s *)
+Ltac go :=
+  lazymatch goal with
+  | |- context [if ?c then next ?a else ?b] => let E := fresh "E" in destruct c eqn:E; go
+  | |- good (Ok _ _) _ => cbn [good]; try solve [ar]
+  | |- good (Err _) _ => exact I
+  | |- good (err _) _ => exact I
+  | |- good Unsup _ => exact I
+  | |- good (rec ?m ?x) ?s =>
+      apply (good_weaken _ x s);
+      [ first [ solve [apply rec_small; ar] | solve [apply IH; ar] | idtac ] | try solve [ar] ]
+  | |- good (bind (if ?c then _ else _) _) _ => let E := fresh "E" in destruct c eqn:E; go
+  | |- good (nil_err (if ?c then _ else _) _) _ => let E := fresh "E" in destruct c eqn:E; go
+  | |- good (bind ?r ?k) ?s =>
+      let b := base r in
+      let L := fresh "L" in
+      assert (L : le_st b s) by ar;
+      apply (good_bind r k b s L); [go | let v := fresh "v" in let x := fresh "x" in let Lx := fresh "Lx" in intros v x Lx; go]
+  | |- good (nil_err ?r ?k) ?s =>
+      let b := base r in
+      let L := fresh "L" in
+      assert (L : le_st b s) by ar;
+      apply (good_nil_err r k b s L); [go | let v := fresh "v" in let x := fresh "x" in let Lx := fresh "Lx" in intros v x Lx; go]
+  | |- good (postfix _ _) _ => apply good_postfix; go
+  | |- good (kv_ret _ _) _ => apply good_kv_ret; try solve [ar]
+  | |- good (if ?c then _ else _) _ => let E := fresh "E" in destruct c eqn:E; go
+  | |- good (match ?d with _ => _ end) _ => let E := fresh "E" in destruct d eqn:E; go
+  | |- good (let _ := _ in _) _ => cbv zeta; go
+  | |- good (?f ?x) ?s => apply (good_weaken _ x s); [ first [ solve [sublemma; ar] | idtac ] | try solve [ar] ]
+  | |- _ => idtac
+  end.
+
+Lemma good_json_key x : small m0 s0 x -> good (json_key rec x) x.
+Proof. intros S. unfold json_key. go. Qed.
+Ltac sublemma ::= first [ apply good_json_key ].
+
+Lemma good_for_finish h i c l x : small m0 s0 x -> good (for_finish rec h i c l x) x.
+Proof. intros S. unfold for_finish. cbv zeta. go. Qed.
+Ltac sublemma ::= first [ apply good_json_key | apply good_for_finish ].
+
+Lemma good_for_after_cond h i c x : small m0 s0 x -> good (for_after_cond rec h i c x) x.
+Proof. intros S. unfold for_after_cond. go. Qed.
+Ltac sublemma ::= first [ apply good_json_key | apply good_for_finish | apply good_for_after_cond ].
+
+Lemma good_for_after_inits h i x : small m0 s0 x -> good (for_after_inits rec h i x) x.
+Proof. intros S. unfold for_after_inits. go. Qed.
+
+Lemma good_foreach_body a k v x : small m0 s0 x -> good (foreach_body rec a k v x) x.
+Proof. intros S. unfold foreach_body. go. Qed.
+
+Lemma good_param_fin v acc d x : small m0 s0 x -> good (param_fin rec v acc d x) x.
+Proof. intros S. unfold param_fin. cbv zeta. go. Qed.
+Ltac sublemma ::= first [ apply good_json_key | apply good_for_finish | apply good_for_after_cond | apply good_for_after_inits
+                        | apply good_foreach_body | apply good_param_fin ].
+
+(* --- the sub-parsers of parsePrimary, entered at s0 on a token (0 < W s0) --- *)
+Lemma good_prim_paren : 0 < W s0 -> good (prim_paren rec s0) s0.
+Proof.
+  intros P. unfold prim_paren. go.
+  (* the cast branch reads the type name: it is there because is_type_cast said so *)
+  all: exfalso; unfold is_type_cast in *;
+    match goal with H : peek s0 1 = _ |- _ => rewrite H in * end; discriminate.
+Qed.
+
+Lemma good_prim_bracket : 0 < W s0 -> good (prim_bracket rec s0) s0.
+Proof. intros P. unfold prim_bracket. cbv zeta. go. Qed.
+Lemma good_prim_ident n : 0 < W s0 -> good (prim_ident rec n s0) s0.
+Proof. intros P. unfold prim_ident. cbv zeta. go. Qed.
+Lemma good_prim_new : 0 < W s0 -> good (prim_new rec s0) s0.
+Proof. intros P. unfold prim_new. cbv zeta. go. Qed.
+Lemma good_prim_if : 0 < W s0 -> good (prim_if rec s0) s0.
+Proof. intros P. unfold prim_if. go. Qed.
+Lemma good_prim_while : 0 < W s0 -> good (prim_while rec s0) s0.
+Proof. intros P. unfold prim_while. cbv zeta. go. Qed.
+Lemma good_prim_do : 0 < W s0 -> good (prim_do rec s0) s0.
+Proof. intros P. unfold prim_do. cbv zeta. go. Qed.
+Lemma good_prim_for : 0 < W s0 -> good (prim_for rec s0) s0.
+Proof. intros P. unfold prim_for. cbv zeta. go. Qed.
+Lemma good_prim_foreach : 0 < W s0 -> good (prim_foreach rec s0) s0.
+Proof. intros P. unfold prim_foreach. cbv zeta. go. Qed.
+Lemma good_prim_switch : 0 < W s0 -> good (prim_switch rec s0) s0.
+Proof. intros P. unfold prim_switch. cbv zeta. go. Qed.
+Lemma good_prim_break : 0 < W s0 -> good (prim_break s0) s0.
+Proof. intros P. unfold prim_break. cbv zeta. go. Qed.
+Lemma good_prim_continue : 0 < W s0 -> good (prim_continue s0) s0.
+Proof. intros P. unfold prim_continue. cbv zeta. go. Qed.
+Lemma good_prim_return : 0 < W s0 -> good (prim_return rec s0) s0.
+Proof. intros P. unfold prim_return. cbv zeta. go. Qed.
+Lemma good_prim_throw : 0 < W s0 -> good (prim_throw rec s0) s0.
+Proof. intros P. unfold prim_throw. cbv zeta. go. Qed.
+
+Ltac sublemma ::= first [ apply good_json_key | apply good_for_finish | apply good_for_after_cond | apply good_for_after_inits
+                        | apply good_foreach_body | apply good_param_fin ].
+
+Ltac sublemma ::= first [ apply good_json_key | apply good_for_finish | apply good_for_after_cond | apply good_for_after_inits
+                        | apply good_foreach_body | apply good_param_fin
+                        | apply good_prim_paren | apply good_prim_bracket | apply good_prim_ident | apply good_prim_new
+                        | apply good_prim_if | apply good_prim_while | apply good_prim_do | apply good_prim_for
+                        | apply good_prim_foreach | apply good_prim_switch | apply good_prim_break | apply good_prim_continue
+                        | apply good_prim_return | apply good_prim_throw ].
+
+(* --- one lemma per mode: under IH for (m0, s0), with m0 the mode in question --- *)
+Lemma good_step_prim n : m0 = Lvl n -> kind n = KPrim -> good (step_prim rec s0) s0.
+Proof. intros Hm Hk. unfold step_prim. cbv zeta. go. Qed.
+
+Lemma good_step_assign : m0 = Lvl 0 -> good (step_assign rec s0) s0.
+Proof. intros Hm. unfold step_assign. go. Qed.
+Lemma good_step_tern : m0 = Lvl 1 -> good (step_tern rec s0) s0.
+Proof. intros Hm. unfold step_tern. go. Qed.
+Lemma good_step_unary : m0 = Lvl 15 -> good (step_unary rec s0) s0.
+Proof. intros Hm. unfold step_unary. go. Qed.
+Lemma good_step_pow : m0 = Lvl 16 -> good (step_pow rec s0) s0.
+Proof. intros Hm. unfold step_pow. cbv zeta. go. Qed.
+
+Lemma good_step_lvl n : m0 = Lvl n -> good (step_lvl rec n s0) s0.
+Proof.
+  intros Hm. unfold step_lvl. destruct (kind n) eqn:Hk; pose proof (kind_spec n) as P; rewrite Hk in P.
+  - subst n. apply good_step_assign; exact Hm.
+  - subst n. apply good_step_tern; exact Hm.
+  - go.
+  - go.
+  - go.
+  - go.
+  - subst n. apply good_step_unary; exact Hm.
+  - subst n. apply good_step_pow; exact Hm.
+  - eapply good_step_prim; eassumption.
+Qed.
+
+Lemma good_step_program last acc : m0 = Program last acc -> good (step_program rec last acc s0) s0.
+Proof. intros Hm. unfold step_program. go. Qed.
+Lemma good_step_stmt : m0 = Stmt -> good (step_stmt rec s0) s0.
+Proof. intros Hm. unfold step_stmt. go. Qed.
+Lemma good_step_mainstmt : m0 = MainStmt -> good (step_mainstmt rec s0) s0.
+Proof. intros Hm. unfold step_mainstmt. go. Qed.
+
+Lemma good_step_loop n acc : m0 = Loop n acc -> good (step_loop rec n acc s0) s0.
+Proof.
+  intros Hm. unfold step_loop. go.
+  - exfalso. unfold cur in *. match goal with R : rest s0 = [] |- _ => rewrite R in * end. discriminate.
+  - (* the signed-number split: W loses 1, same mode *)
+    match goal with R : rest s0 = _ :: _, C : cur s0 = SAtom (ANum true ?k) |- _ => pose proof (split_W k s0 _ _ R C) as SW end.
+    apply Nat.eqb_eq in E2. subst n. apply IH. rewrite Hm. unfold M. cbn [rank]. lia.
+  - match goal with R : rest s0 = _ :: _, C : cur s0 = SAtom (ANum true ?k) |- _ => pose proof (split_W k s0 _ _ R C) as SW end.
+    unfold le_st. lia.
+Qed.
+
+Lemma good_step_uloop acc : m0 = ULoop acc -> good (step_uloop rec acc s0) s0.
+Proof. intros Hm. unfold step_uloop. go. Qed.
+Lemma good_step_aloop acc : m0 = ALoop acc -> good (step_aloop rec acc s0) s0.
+Proof. intros Hm. unfold step_aloop. go. Qed.
+Lemma good_step_ploop acc : m0 = PLoop acc -> good (step_ploop rec acc s0) s0.
+Proof. intros Hm. unfold step_ploop. go. Qed.
+Lemma good_step_commalist acc : m0 = CommaList acc -> good (step_commalist rec acc s0) s0.
+Proof. intros Hm. unfold step_commalist. cbv zeta. go. Qed.
+Lemma good_step_suffix e : m0 = Suffix e -> good (step_suffix rec e s0) s0.
+Proof. intros Hm. unfold step_suffix. cbv zeta. go. Qed.
+Lemma good_step_args acc : m0 = Args acc -> good (step_args rec acc s0) s0.
+Proof. intros Hm. unfold step_args. go. Qed.
+Lemma good_step_block : m0 = Block -> good (step_block rec s0) s0.
+Proof. intros Hm. unfold step_block. go. Qed.
+Lemma good_step_blockloop acc : m0 = BlockLoop acc -> good (step_blockloop rec acc s0) s0.
+Proof. intros Hm. unfold step_blockloop. cbv zeta. go. Qed.
+Lemma good_step_arrskip acc : m0 = ArrSkip acc -> good (step_arrskip rec acc s0) s0.
+Proof. intros Hm. unfold step_arrskip. cbv zeta. go. Qed.
+Lemma good_step_arraftercomma acc : m0 = ArrAfterComma acc -> good (step_arraftercomma rec acc s0) s0.
+Proof. intros Hm. unfold step_arraftercomma. cbv zeta. go. Qed.
+Lemma good_step_kvloopcomma acc : m0 = KvLoopComma acc -> good (step_kvloopcomma rec acc s0) s0.
+Proof. intros Hm. unfold step_kvloopcomma. cbv zeta. go. Qed.
+Lemma good_step_kvloop c acc : m0 = KvLoop c acc -> good (step_kvloop rec c acc s0) s0.
+Proof. intros Hm. unfold step_kvloop. go. Qed.
+Lemma good_step_jsonloopb acc : m0 = JsonLoopB acc -> good (step_jsonloopb rec acc s0) s0.
+Proof. intros Hm. unfold step_jsonloopb. go. Qed.
+Lemma good_step_jsonloop acc : m0 = JsonLoop acc -> good (step_jsonloop rec acc s0) s0.
+Proof. intros Hm. unfold step_jsonloop. cbv zeta. go. Qed.
+Lemma good_step_echoloop acc : m0 = EchoLoop acc -> good (step_echoloop rec acc s0) s0.
+Proof. intros Hm. unfold step_echoloop. go. Qed.
+Lemma good_step_ifcond : m0 = IfCond -> good (step_ifcond rec s0) s0.
+Proof. intros Hm. unfold step_ifcond. go. Qed.
+Lemma good_step_elseifs c th acc : m0 = ElseIfs c th acc -> good (step_elseifs rec c th acc s0) s0.
+Proof. intros Hm. unfold step_elseifs. cbv zeta. go. Qed.
+Lemma good_step_forinits acc : m0 = ForInits acc -> good (step_forinits rec acc s0) s0.
+Proof. intros Hm. unfold step_forinits. go. Qed.
+Lemma good_step_forincs i c acc : m0 = ForIncs i c acc -> good (step_forincs rec i c acc s0) s0.
+Proof. intros Hm. unfold step_forincs. go. Qed.
+Lemma good_step_switchloop c cs d : m0 = SwitchLoop c cs d -> good (step_switchloop rec c cs d s0) s0.
+Proof. intros Hm. unfold step_switchloop. cbv zeta. go. Qed.
+Lemma good_step_casebody b acc : m0 = CaseBody b acc -> good (step_casebody rec b acc s0) s0.
+Proof. intros Hm. unfold step_casebody. cbv zeta. go. Qed.
+Lemma good_step_returns acc : m0 = Returns acc -> good (step_returns rec acc s0) s0.
+Proof. intros Hm. unfold step_returns. go. Qed.
+Lemma good_step_catches b acc : m0 = Catches b acc -> good (step_catches rec b acc s0) s0.
+Proof. intros Hm. unfold step_catches. cbv zeta. go. Qed.
+Lemma good_step_catchtypes acc : m0 = CatchTypes acc -> good (step_catchtypes rec acc s0) s0.
+Proof. intros Hm. unfold step_catchtypes. cbv zeta. go. Qed.
+Lemma good_step_params acc : m0 = Params acc -> good (step_params rec acc s0) s0.
+Proof. intros Hm. unfold step_params. cbv zeta. go. Qed.
+Lemma good_step_plbrace : m0 = PLbrace -> good (step_plbrace rec s0) s0.
+Proof. intros Hm. unfold step_plbrace. cbv zeta. go. Qed.
+Lemma good_step_pfunc : m0 = PFunc -> good (step_pfunc rec s0) s0.
+Proof. intros Hm. unfold step_pfunc. cbv zeta. go. Qed.
+
+Lemma good_step m : m0 = m -> good (step rec m s0) s0.
+Proof.
+  destruct m; intros Hm; cbn [step];
+  first [ apply good_step_program | apply good_step_stmt | apply good_step_mainstmt | apply good_step_lvl | apply good_step_loop
+        | apply good_step_uloop | apply good_step_aloop | apply good_step_ploop | apply good_step_commalist
+        | apply good_step_suffix | apply good_step_args | apply good_step_block | apply good_step_blockloop
+        | apply good_step_arraftercomma | apply good_step_arrskip | apply good_step_kvloop | apply good_step_kvloopcomma
+        | apply good_step_jsonloop | apply good_step_jsonloopb | apply good_step_echoloop | apply good_step_elseifs
+        | apply good_step_ifcond | apply good_step_forinits | apply good_step_forincs | apply good_step_switchloop
+        | apply good_step_casebody | apply good_step_returns | apply good_step_catches | apply good_step_catchtypes
+        | apply good_step_params | apply good_step_plbrace | apply good_step_pfunc ]; exact Hm.
+Qed.
+
+End StepProof.
+
+(* ---------- termination and no crash, all modes, all states ---------- *)
+Theorem parse_good : forall f m s, M m s < f -> good (parse f m s) s.
+Proof.
+  induction f as [|f IHf]; intros m s H; [lia|]. cbn [parse].
+  apply (good_step (parse f) m s); [|reflexivity]. intros m' x Hx. apply IHf. lia.
+Qed.
+
+Lemma wl_le l : wl l <= 81 * length l.
+Proof. induction l as [|t r IHr]; cbn [wl length]; [lia|]. assert (tw t <= 81) by (destruct t as [a| | | | | | | | | | | | | | | | | | | | | |]; try (cbn; lia); destruct a as [| neg k | | | |]; try (cbn; lia); destruct neg; cbn; lia). lia. Qed.
+
+Lemma parse_program_mode_list : forall f last acc s v s', parse f (Program last acc) s = Ok v s' -> exists l, v = EList l.
+Proof.
+  induction f as [|f IHf]; intros last acc s v s' H; [discriminate|]. cbn [parse step] in H. unfold step_program in H.
+  destruct (is_eof s); [inversion H; eauto|].
+  destruct (parse f Stmt s) as [v1 s1| | | |]; cbn [bind] in H; try discriminate.
+  destruct (is_nil v1).
+  - destruct (pos s1 =? last); [discriminate|]. eapply IHf; eassumption.
+  - destruct (pos s1 =? pos s); [discriminate|]. eapply IHf; eassumption.
+Qed.
